@@ -34,8 +34,8 @@ warnings.filterwarnings("ignore")
 LEVEL = "proof"
 ENTRY = "C06Entry"
 
-SIG = {"perm": "datalist-unsorted-entries", "headers": "header-record-on-empty-row"}
-SINGLE_KINDS = ["perm", "rechunk", "order", "method", "form", "offsets", "headers"]
+SIG = {"perm": "datalist-unsorted-entries", "headers": "header-record-on-empty-row", "rows": "stored-row-order"}
+SINGLE_KINDS = ["perm", "rechunk", "order", "method", "form", "offsets", "headers", "rows"]
 CORE_FIXTURES = ["issue-66-collab", "test-1", "test-empty-rows", "issue-14", "test-3", "test-6", "issue-80", "custom-formats1", "issue-32"]
 SLOW_FIXTURES = {"duration_112", "custom-format-stress", "test-all-formulas", "test-all-formulas-13.1", "date_formats", "issue-67"}
 
@@ -353,6 +353,26 @@ def oracle_layout(L):
     return declared_rows_oracle(m, 1, L)
 
 
+def oracle_partition(storage, offsets_raw, ncols, wide, got=None):
+    """Implementation-only: with ascending offsets the records reported for a row are consecutive, disjoint slices
+    covering the storage from the first reported record to the end (nothing read twice, nothing skipped) - as long as
+    the offset table is not cut short by ncols."""
+    from numbers_parser.model import get_storage_buffers_for_row
+    offs = array("h", offsets_raw).tolist()
+    if got is None:
+        got = get_storage_buffers_for_row(storage, offsets_raw, ncols, wide)
+    if len(offs) > ncols:
+        return None
+    pres = [x * (4 if wide else 1) for x in offs if x >= 0]
+    if not pres or pres != sorted(pres):
+        return None
+    joined = b"".join(b for b in got if b is not None)
+    if joined != storage[pres[0]:]:
+        return (f"offsets {offs} ({'wide' if wide else 'narrow'}), {len(storage)} bytes of storage: reported records "
+                f"{[show_buf(b) for b in got]} are not the consecutive slices of the storage")
+    return None
+
+
 def oracle_entries(entries):
     """Implementation-only: with distinct keys every entry is found under its key."""
     keys = [k for k, _ in entries]
@@ -644,6 +664,9 @@ def direct_streams(ctx: Ctx, exe, fx):
         outs.append(",".join(show_buf(b) for b in got))
         offs = array("h", o).tolist()
         ctx.count("oracle-offsets-direct")
+        d = oracle_partition(s, o, ncols, wide, got)
+        if d:
+            ctx.oracle_fail("row-slices-not-a-partition", {"op": "partition", "wide": wide, "ncols": ncols, "offsets": o.hex(), "storage": s.hex()}, d)
         alt = None
         if wide and all(x < 0 or x * 4 <= 32767 for x in offs):
             alt = (array("h", [x if x < 0 else x * 4 for x in offs]).tobytes(), False)
@@ -762,7 +785,7 @@ def run(ctx: Ctx) -> int:
     ctx.extra["rule"] = ("direct: generated lookup lists (ascending/shuffled/reversed/duplicate/gapped keys), generated table layouts (1-3 tiles, tile sizes 0/3/4/8/256, "
                          "stored-row subsets, header records exact/extra/missing/none/two buckets, rowInfos and tiles in or out of order, short offset tables, narrow and wide rows); "
                          "documents: core fixtures + seeded sample (quick) or all fixtures (thorough) + 4 API-built documents, each rewritten by every single transformation, "
-                         "random compositions and the composition of all seven; non-trivial = at least one transformation changed the file; evaluations count cells compared")
+                         "random compositions and the composition of all eight; non-trivial = at least one transformation changed the file; evaluations count cells compared")
     cr = common.coq_check_props("C06", clean=not ctx.quick)
     ctx.coq, ctx.theorems = cr, cr.theorems
     if not cr.ok:
@@ -799,6 +822,14 @@ def search(ctx: Ctx, broken) -> list:
         d = oracle_layout(L)
         if d:
             found.append((SIG["headers"], {"op": "rowmap", "layout": layout_json(L)}, d))
+            break
+    for _ in range(50000):
+        ncols = rng.randrange(1, 8)
+        wide = rng.random() < 0.5
+        o, st = gen_row(rng, ncols, wide)
+        d = oracle_partition(st, o, ncols, wide)
+        if d:
+            found.append(("row-slices-not-a-partition", {"op": "partition", "wide": wide, "ncols": ncols, "offsets": o.hex(), "storage": st.hex()}, d))
             break
     tmp = ctx.tmp
     srcs = [f for f in usable_fixtures() if f not in SLOW_FIXTURES] + ["api:" + n for n in API_DOCS]
@@ -837,6 +868,8 @@ def replay(path: str) -> int:
         msg = oracle_entries([tuple(e) for e in case["entries"]])
     elif case.get("op") == "rowmap":
         msg = oracle_layout(layout_unjson(case["layout"]))
+    elif case.get("op") == "partition":
+        msg = oracle_partition(bytes.fromhex(case["storage"]), bytes.fromhex(case["offsets"]), case["ncols"], case["wide"])
     elif case.get("op") == "split":
         from numbers_parser.model import get_storage_buffers_for_row
         o, s, wide, nc = bytes.fromhex(case["offsets"]), bytes.fromhex(case["storage"]), case["wide"], case["ncols"]
